@@ -10,8 +10,9 @@
 
     A template is the syntax tree rstml hands to the macro, with every Rust expression
     replaced by the value it evaluates to (a string / a bool).  NOT modelled (compared only by
-    the harness): rstml parsing, token plumbing, components and slots, spreads, events,
-    directives, properties, [inner_html], the global-class form.  No proofs in this file. *)
+    the harness): rstml parsing, token plumbing, components and slots, spreads, [inner_html], the
+    doctype, the global-class form; events, directives, properties and node refs are one constructor [ASilent]
+    (they keep an element off the inert path and render nothing).  No proofs in this file. *)
 From Coq Require Import List NArith Bool Ascii String.
 From LV Require Import Base.Bytes.
 Import ListNotations.
@@ -74,13 +75,17 @@ Inductive attr :=
 | AClassTog (name : bytes) (v : option bool) (* class:name   |  class:name={b}                      *)
 | AClassTup (names : list bytes) (b : bool)  (* class=("n", b)  |  class=(["n1","n2"], b)            *)
 | AStyleProp (prop : bytes) (v : bytes)      (* style:prop="v"  |  style:prop={e}                    *)
-| AStyleTup (prop : bytes) (v : bytes).      (* style=("prop", "v")                                  *)
+| AStyleTup (prop : bytes) (v : bytes)       (* style=("prop", "v")                                  *)
+| ASilent.                                   (* on:ev=f | prop:x=v | use:d | node_ref=r: instructions to the
+                                               builder that render nothing ([is_special_key]: never static) *)
 
 Inductive node :=
 | NText (s : bytes)                                   (* "literal"                  *)
 | NBlock (s : bytes)                                  (* {e}, e : String = s        *)
 | NElem (tag : bytes) (attrs : list attr) (children : list node)
-| NFrag (children : list node).                       (* <> … </>                   *)
+| NFrag (children : list node)                        (* <> … </>                   *)
+| NComment.                                           (* <!-- "…" -->: dropped by the macro, but an element
+                                                         holding one is never inert       *)
 
 (** ---- tables of the macro (leptos_macro/src/view/mod.rs) ---- *)
 Definition macro_void : list bytes := Eval vm_compute in map bs
@@ -132,7 +137,7 @@ Fixpoint all_static (n : node) : bool :=
   | NText _ => true
   | NElem tag attrs ch =>
       negb (is_component tag) && forallb attr_static attrs && forallb all_static ch
-  | NBlock _ | NFrag _ => false
+  | NBlock _ | NFrag _ | NComment => false
   end.
 
 Definition is_inert_element (n : node) : bool :=
@@ -167,7 +172,7 @@ Fixpoint inert_node (escape : bool) (n : node) : bytes :=
       [60] ++ tag ++ print_attrs (flat_map i_attr attrs) ++ [62] ++
       (if mem tag macro_void then []
        else flat_map (inert_node escape') ch ++ [60; 47] ++ tag ++ [62])
-  | NBlock _ | NFrag _ => []                       (* [_ => {}] *)
+  | NBlock _ | NFrag _ | NComment => []            (* [_ => {}] *)
   end.
 Definition inert_html (n : node) : bytes := inert_node true n.
 
@@ -277,6 +282,7 @@ Fixpoint r_node (io top escape : bool) (pos : position) (n : node) {struct n} : 
   | NText s => if is_nil s then ([], pos) else r_text escape pos s
   | NBlock s => r_text escape pos s
   | NFrag ch => thread (fun pos x => r_node io true escape pos x) pos ch
+  | NComment => ([], pos)
   | NElem tag attrs ch =>
       if negb top && io && is_inert_element n then (inert_node true n, PNext)
       else
@@ -300,6 +306,7 @@ Fixpoint has_tokens (n : node) : bool :=
   | NText s => negb (is_nil s)
   | NBlock _ | NElem _ _ _ => true
   | NFrag ch => existsb has_tokens ch
+  | NComment => false
   end.
 
 (** [render_view] + [to_html()]: 1 node = that node at top level, more = a fragment; if nothing
@@ -386,6 +393,7 @@ Definition attr_pairs (a : attr) : list (bytes * bytes) :=
   | AClassTog n (Some false) => []
   | AClassTup ns b => if b then map (fun n => (k_class, n)) ns else []
   | AStyleProp p v | AStyleTup p v => [(k_style, p ++ [58] ++ v)]
+  | ASilent => []
   end.
 Definition denote_attrs (attrs : list attr) : list (bytes * bytes) :=
   norm_attrs (flat_map attr_pairs attrs).
@@ -398,6 +406,7 @@ Fixpoint dn (n : node) (cur : list tree) {struct n} : list tree :=
   match n with
   | NText s | NBlock s => push_text s cur
   | NFrag ch => fold_left (fun cur x => dn x cur) ch cur
+  | NComment => cur
   | NElem tag attrs ch =>
       TElem tag (denote_attrs attrs)
         (rev (if mem tag html_void then [] else fold_left (fun cur x => dn x cur) ch []))
